@@ -822,7 +822,15 @@ def build_cases(tier="quick"):
 
 
 def grounds():
-    return [Ground(f"{PROP}/hashes.precomputed-tables", ground_tables)]
+    from contracts.common import ground_script
+
+    G = [
+        ("offsetmap-bucket-edge", "offsetmap_bucket_edge.py", "uint[] a at slot 0: a[6813] = 9; return a[i]", "a hash constant plus an offset is recognised whatever the offset: a[K] written with a concrete K is read back through a[i] with i == K, also when keccak(slot) + K leaves the 2**16-aligned block of the hash"),
+        ("string-key-spellings", "string_key_concrete_vs_symbolic.py", "m[\"hello\"] = 7; return m[s] with 5 symbolic bytes s", "a mapping cell written through a concrete string / bytes key is the one read through an equal symbolic key (solidity layout, key lengths other than 32 bytes)"),
+        ("generic-hash-valued-key", "generic_hash_valued_key.py", "m[keccak256(abi.encode(x))] = 7; return m[h]", "generic layout: a key that is itself a hash and an equal plain key denote the same cell"),
+        ("generic-sum-wraps", "generic_location_sum_wrap.py", "a[i-1] = 7; return a[j] with j == i-1", "generic layout: location sums wrap at 2**256 like EVM arithmetic"),
+    ]
+    return [Ground(f"{PROP}/hashes.precomputed-tables", ground_tables)] + [Ground(f"{PROP}/storage-spellings#{tag}", ground_script(script, what, claim), sources=("halmos.sevm:SolidityStorage.decode", "halmos.sevm:GenericStorage.decode")) for tag, script, what, claim in G]
 
 
 def bounded():
